@@ -100,7 +100,7 @@ def run(rep):
     known = {f["id"]: f for f in C.known_findings("C06") if f.get("status") == "open"}
     # 1. the scripted witnesses: C06_read_atomic_refuted_orig (Get; repaired: the read must return a value now) and
     #    C06_keys_atomic_refuted (GetKeys; known finding D11b)
-    wit = [c for c in P.corpus("conc_witnesses.txt") if c.split("\n")[0].split()[1] in ("d11", "d11b")]
+    wit = [c for c in P.corpus("conc_witnesses.txt") if c.split("\n")[0].split()[1] in ("d11", "d11b", "d11c", "d11d")]
     wout = H.run_sharded(fsdbh, "hist", wit, shards=1)
     reproduced = {}
     for c, o in zip(wit, wout):
@@ -109,7 +109,9 @@ def run(rep):
         if any(r in ("AWAIT-TIMEOUT", "WAIT-TIMEOUT") or r.startswith("PANIC") for r in o):
             raise C.CheckBroken("scripted schedule did not run as scripted: %s" % o)
         r = o[ops.index("wait R")]
-        if cid == "d11":
+        if cid in ("d11", "d11c", "d11d"):
+            # d11: overwrite + complete collection between look-up and fetch; d11c: the collection is parked between
+            # removing the content file and deleting its record; d11d: the read is overtaken twice
             if not r.startswith("val "):
                 rep.violation(dict(kind="oracle", what="a read of a key that had a value throughout returned %s (look-up, then overwrite + "
                                    "collection, then fetch: the repaired read resolves the version again)" % r, case=c, impl=o))
